@@ -6,13 +6,45 @@ import SonicSpec.Model.IrSub
 namespace SonicSpec.Ir
 open SonicSpec SonicSpec.Go SonicSpec.Enc SonicSpec.Json
 
-/-- the code of `T` placed anywhere, run on a cursor holding `v`, appends the rendering of `encV T v` and leaves
-    registers and stack as they were - or stops with the specification's error -/
+/-- `Compiler.tab` growing does not bring names back -/
+theorem tabHas_cons (T U : GoType) (tab : List GoType) : tabHas (T :: tab) U = (typeEq U T || tabHas tab U) := by
+  simp [tabHas]
+
+theorem libLeft_cons_le (T : GoType) (tab : List GoType) : libLeft (T :: tab) ≤ libLeft tab := by
+  unfold libLeft libNames
+  simp only [List.filter, tabHas_cons]
+  cases typeEq (.lib "Rec") T <;> cases typeEq (.lib "Tree") T <;> cases tabHas tab (.lib "Rec") <;> cases tabHas tab (.lib "Tree") <;> simp
+
+theorem libLeft_lib_lt {n : String} {tab : List GoType} (hn : libNames.contains n = true) (ht : tabHas tab (.lib n) = false) :
+    libLeft (.lib n :: tab) < libLeft tab := by
+  unfold libLeft libNames at *
+  simp only [List.filter, tabHas_cons]
+  simp at hn
+  rcases hn with rfl | rfl
+  · simp [typeEq, ht]
+  · simp [typeEq, ht]
+    cases tabHas tab (.lib "Rec") <;> simp
+
+theorem libLeft_nil : libLeft [] = libNames.length := by decide
+
+/-- the code of `T` placed anywhere (compiled with any unfolding level `k` that covers the names not yet in `tab`), run on
+    a cursor holding `v`, appends the rendering of `encV T v` and leaves registers and stack as they were - or stops
+    with the specification's error -/
 def CodeOK (o : EncOpts) (co : COpts) (T : GoType) (v : GoVal) : Prop :=
+  ∀ (k : Nat) (tab : List GoType), libLeft tab ≤ k →
   ∀ (addr fpv : Bool) (P : Program) (pc sp : Nat) (pv : Bool) (r : Regs) (s : Stack) (b : Bytes),
-    At P pc (code co pc sp pv T) → r.p.get = some v → s.length + need T ≤ maxStack →
+    At P pc (code co (libK co k) tab pc sp pv T) → r.p.get = some v → s.length + needV T v ≤ maxStack →
     (∀ j, encV o addr T v = .ok j → ∀ res,
-        Halts o co fpv P (pc + (code co pc sp pv T).length) r s (b ++ render j) res → Halts o co fpv P pc r s b res) ∧
+        Halts o co fpv P (pc + (code co (libK co k) tab pc sp pv T).length) r s (b ++ render j) res → Halts o co fpv P pc r s b res) ∧
+    (∀ e, encV o addr T v = .error e → e = .unsupportedValue ∧ Halts o co fpv P pc r s b (.error (.enc e)))
+
+/-- the same when `T` is not among the types being compiled (`compileRec`; otherwise the code is one OP_recurse) -/
+def CodeOKn (o : EncOpts) (co : COpts) (T : GoType) (v : GoVal) : Prop :=
+  ∀ (k : Nat) (tab : List GoType), libLeft tab ≤ k → tabHas tab T = false →
+  ∀ (addr fpv : Bool) (P : Program) (pc sp : Nat) (pv : Bool) (r : Regs) (s : Stack) (b : Bytes),
+    At P pc (code co (libK co k) tab pc sp pv T) → r.p.get = some v → s.length + needV T v ≤ maxStack →
+    (∀ j, encV o addr T v = .ok j → ∀ res,
+        Halts o co fpv P (pc + (code co (libK co k) tab pc sp pv T).length) r s (b ++ render j) res → Halts o co fpv P pc r s b res) ∧
     (∀ e, encV o addr T v = .error e → e = .unsupportedValue ∧ Halts o co fpv P pc r s b (.error (.enc e)))
 
 variable {o : EncOpts} {co : COpts}
@@ -24,11 +56,11 @@ def leafRes (out : Except EErr Bytes) (pc : Nat) (r : Regs) (s : Stack) (b : Byt
 
 /-- a type whose code is one instruction that formats the value under the cursor -/
 theorem leaf_ok {T : GoType} {v : GoVal} {ins : Instr} (out : Except EErr Bytes)
-    (hcode : ∀ pc sp pv, code co pc sp pv T = [ins])
+    (hcode : ∀ lib tab pc sp pv, code co lib tab pc sp pv T = [ins])
     (henc : ∀ addr, (encV o addr T v).map render = out)
     (hstep : ∀ pc r s b, r.p.get = some v → step o ins pc r s b = leafRes out pc r s b)
     (herr : ∀ e, out = .error e → e = .unsupportedValue) : CodeOK o co T v := by
-  intro addr fpv P pc sp pv r s b hat hg _
+  intro k tab _hk addr fpv P pc sp pv r s b hat hg _hs
   rw [hcode] at hat ⊢
   have he := henc addr
   have hst := hstep pc r s b hg
@@ -68,11 +100,11 @@ theorem numberLit_err {x : Bytes} {e : EErr} (h : numberLit x = .error e) : e = 
     · injection h with h; exact h.symm
 
 theorem codeOK_bool (x : Bool) : CodeOK o co .bool (.bool x) :=
-  leaf_ok (.ok (render (.bool x))) (fun _ _ _ => by rw [code]) (fun _ => by simp only [encV, Except.map])
+  leaf_ok (.ok (render (.bool x))) (fun _ _ _ _ _ => by rw [code]) (fun _ => by simp only [encV, Except.map])
     (fun pc r s b hg => by simp only [step, hg, leafRes]) (fun e h => by cases h)
 
 theorem codeOK_int (bits : Nat) (n : Int) : CodeOK o co (.int bits) (.int n) :=
-  leaf_ok (.ok (intDec n)) (fun _ _ _ => by rw [code]) (fun _ => by simp only [encV, Except.map, render])
+  leaf_ok (.ok (intDec n)) (fun _ _ _ _ _ => by rw [code]) (fun _ => by simp only [encV, Except.map, render])
     (fun pc r s b hg => by
       unfold intOp
       split
@@ -82,7 +114,7 @@ theorem codeOK_int (bits : Nat) (n : Int) : CodeOK o co (.int bits) (.int n) :=
         · split <;> simp only [step, hg, leafRes]) (fun e h => by cases h)
 
 theorem codeOK_uint (bits : Nat) (n : Nat) : CodeOK o co (.uint bits) (.uint n) :=
-  leaf_ok (.ok (natDec n)) (fun _ _ _ => by rw [code]) (fun _ => by simp only [encV, Except.map, render])
+  leaf_ok (.ok (natDec n)) (fun _ _ _ _ _ => by rw [code]) (fun _ => by simp only [encV, Except.map, render])
     (fun pc r s b hg => by
       unfold uintOp
       split
@@ -92,7 +124,7 @@ theorem codeOK_uint (bits : Nat) (n : Nat) : CodeOK o co (.uint bits) (.uint n) 
         · split <;> simp only [step, hg, leafRes]) (fun e h => by cases h)
 
 theorem codeOK_f64 (x : UInt64) : CodeOK o co .f64 (.f64 x) :=
-  leaf_ok (floatLit o (fmtF64 x)) (fun _ _ _ => by rw [code])
+  leaf_ok (floatLit o (fmtF64 x)) (fun _ _ _ _ _ => by rw [code])
     (fun _ => by
       simp only [encV]
       cases floatLit o (fmtF64 x) with
@@ -102,7 +134,7 @@ theorem codeOK_f64 (x : UInt64) : CodeOK o co .f64 (.f64 x) :=
     (fun e h => floatLit_err h)
 
 theorem codeOK_f32 (x : UInt32) : CodeOK o co .f32 (.f32 x) :=
-  leaf_ok (floatLit o (fmtF32 x)) (fun _ _ _ => by rw [code])
+  leaf_ok (floatLit o (fmtF32 x)) (fun _ _ _ _ _ => by rw [code])
     (fun _ => by
       simp only [encV]
       cases floatLit o (fmtF32 x) with
@@ -112,12 +144,12 @@ theorem codeOK_f32 (x : UInt32) : CodeOK o co .f32 (.f32 x) :=
     (fun e h => floatLit_err h)
 
 theorem codeOK_str (x : Bytes) : CodeOK o co .str (.str x) :=
-  leaf_ok (.ok (quoteLit o.escapeHTML o.validateString x)) (fun _ _ _ => by rw [code])
+  leaf_ok (.ok (quoteLit o.escapeHTML o.validateString x)) (fun _ _ _ _ _ => by rw [code])
     (fun _ => by simp only [encV, Except.map, render, strVal, quoteLit])
     (fun pc r s b hg => by simp only [step, hg, leafRes]) (fun e h => by cases h)
 
 theorem codeOK_num (x : Bytes) : CodeOK o co .num (.num x) :=
-  leaf_ok (numberLit x) (fun _ _ _ => by rw [code])
+  leaf_ok (numberLit x) (fun _ _ _ _ _ => by rw [code])
     (fun _ => by
       simp only [encV]
       cases numberLit x with
@@ -148,8 +180,8 @@ theorem halts_cast {fpv : Bool} {P : Program} {pc pc' : Nat} {r r' : Regs} {s s'
     (h : Halts o co fpv P pc' r' s' b' res) (hpc : pc = pc') (hr : r = r') (hs : s = s') (hb : b = b') :
     Halts o co fpv P pc r s b res := by subst hpc hr hs hb; exact h
 
-theorem codeOK_bytes (v : GoVal) (hc : Conf .bytes v = true) : CodeOK o co .bytes v := by
-  intro addr fpv P pc sp pv r s b hat hg _
+theorem codeOK_bytes {c0 : COpts} (v : GoVal) (hc : Conf c0 .bytes v = true) : CodeOK o co .bytes v := by
+  intro k tab _hk addr fpv P pc sp pv r s b hat hg _hs
   rw [code] at hat ⊢
   cases v <;> try (simp [Conf] at hc; done)
   case nil =>
@@ -174,34 +206,34 @@ theorem codeOK_bytes (v : GoVal) (hc : Conf .bytes v = true) : CodeOK o co .byte
 
 
 
-theorem codeOK_ptr_nil (t : GoType) : CodeOK o co (.ptr t) .nil := by
-  intro addr fpv P pc sp pv r s b hat hg _
-  rw [code] at hat ⊢
+theorem codeOK_ptr_nil (t : GoType) : CodeOKn o co (.ptr t) .nil := by
+  intro k tab _hk hnh addr fpv P pc sp pv r s b hat hg _hs
+  rw [code, if_neg (by simp [hnh])] at hat ⊢
   simp only [List.cons_append, List.nil_append] at hat ⊢
   constructor
   · intro j hj res h
     simp only [encV] at hj
     injection hj with hj; subst hj
     refine halts_step (hat.get 0 (by omega) rfl) (by simp only [step, hg, jumpIf]; rfl) ?_
-    have h3 : At P (pc + 3) (code co (pc + 3) (sp + 1) true t ++ _) := hat.skip 3
+    have h3 : At P (pc + 3) (code co (libK co k) (.ptr t :: tab) (pc + 3) (sp + 1) true t ++ _) := hat.skip 3
     have htl := h3.right
     refine halts_step (htl.get 2 (by omega) rfl) (by simp only [step]; rfl) ?_
     exact halts_cast h (by simp; omega) rfl rfl rfl
   · intro e he; simp only [encV] at he; cases he
 
-theorem codeOK_ptr (t : GoType) (w : GoVal) (ih : CodeOK o co t w) : CodeOK o co (.ptr t) (.ptr w) := by
-  intro addr fpv P pc sp pv r s b hat hg hs
-  rw [code] at hat ⊢
+theorem codeOK_ptr (t : GoType) (w : GoVal) (ih : CodeOK o co t w) : CodeOKn o co (.ptr t) (.ptr w) := by
+  intro k tab hk hnh addr fpv P pc sp pv r s b hat hg hs
+  rw [code, if_neg (by simp [hnh])] at hat ⊢
   simp only [List.cons_append, List.nil_append] at hat ⊢
-  simp only [need] at hs
+  simp only [needV] at hs
   have hsave : step o (.save false) (pc + 1) r s b = .next (pc + 1 + 1) r (r :: s) b := by
     simp only [step]
     rw [if_neg (by omega)]
     simp
-  have h3 : At P (pc + 3) (code co (pc + 3) (sp + 1) true t ++ _) := hat.skip 3
+  have h3 : At P (pc + 3) (code co (libK co k) (.ptr t :: tab) (pc + 3) (sp + 1) true t ++ _) := hat.skip 3
   have hbody := h3.left
   have htl := h3.right
-  obtain ⟨ihok, iherr⟩ := ih true fpv P (pc + 3) (sp + 1) true { r with p := .val w } (r :: s) b hbody rfl (by simp; omega)
+  obtain ⟨ihok, iherr⟩ := ih k (.ptr t :: tab) (Nat.le_trans (libLeft_cons_le _ _) hk) true fpv P (pc + 3) (sp + 1) true { r with p := .val w } (r :: s) b hbody rfl (by simp; omega)
   simp only [encV]
   constructor
   · intro j hj res h
@@ -219,5 +251,30 @@ theorem codeOK_ptr (t : GoType) (w : GoVal) (ih : CodeOK o co t w) : CodeOK o co
     refine halts_step (hat.get 1 (by omega) rfl) hsave ?_
     refine halts_step (hat.get 2 (by omega) rfl) (by simp only [step, hg]; rfl) ?_
     exact halts_cast h2 (by omega) rfl rfl rfl
+
+
+/-- a type met while it is being compiled: OP_recurse runs the type's own program (compiled from an empty `tab`) -/
+theorem codeOK_of_nohit {T : GoType} {v : GoVal}
+    (hrec : ∀ lib tab pc sp pv, tabHas tab T = true → code co lib tab pc sp pv T = [Instr.recurse T pv])
+    (hn : CodeOKn o co T v) : CodeOK o co T v := by
+  intro k tab hk addr fpv P pc sp pv r s b hat hg hs
+  cases hit : tabHas tab T with
+  | false => exact hn k tab hk hit addr fpv P pc sp pv r s b hat hg hs
+  | true =>
+    rw [hrec _ _ _ _ _ hit] at hat ⊢
+    obtain ⟨cok, cerr⟩ := hn libNames.length [] (Nat.le_of_eq libLeft_nil) rfl addr (fpv || pv)
+      (compile co T (fpv || pv)) 0 0 (fpv || pv) (Regs.start r.p) s b (At.whole _) hg hs
+    have hstep : step o (Instr.recurse T pv) pc r s b = .call T pv r.p := by simp only [step]
+    constructor
+    · intro j hj res h
+      refine halts_call (hat.get 0 (by omega) rfl) hstep ?_ (halts_cast h (by simp) rfl rfl rfl)
+      exact cok j hj _ (halts_done (At.end_none (by unfold compile; simp)))
+    · intro e hj
+      obtain ⟨h1, h2⟩ := cerr e hj
+      exact ⟨h1, halts_callErr (hat.get 0 (by omega) rfl) hstep h2⟩
+
+/-- a type with nothing inside: no test of `tab` is compiled -/
+theorem codeOKn_of_codeOK {T : GoType} {v : GoVal} (h : CodeOK o co T v) : CodeOKn o co T v :=
+  fun k tab hk _ => h k tab hk
 
 end SonicSpec.Ir
